@@ -239,6 +239,7 @@ struct Cfg {
   int ntl = 1, sym = 31;
   bool basic_only = true, file_io = false, has_add = false, has_norm = false, use_cache = true;
   int subsets = 1;
+  int raise_to = 0;      // > 0: number of threads set AFTER the projectors' set_up (the run starts with fewer)
   uint64_t data_seed = 1;
   std::string scratch;
 };
@@ -286,9 +287,11 @@ static void fill_projdata(ProjData& pd, vh::Rng& rng, int lo, int hi, float unit
     }
 }
 static int g_file_counter = 0;
+static std::vector<std::string> g_files;
 static shared_ptr<ProjData> make_projdata(const Cfg& c, const shared_ptr<ExamInfo>& ex, const shared_ptr<ProjDataInfo>& pdi, bool on_disk) {
   if (!on_disk) return shared_ptr<ProjData>(new ProjDataInMemory(ex, pdi));
   const std::string fn = c.scratch + "/pd" + std::to_string(getpid()) + "_" + std::to_string(++g_file_counter);
+  g_files.push_back(fn);
   return shared_ptr<ProjData>(new ProjDataInterfile(ex, pdi, fn, std::ios::in | std::ios::out | std::ios::trunc));
 }
 static void cfg_json(vh::Json& j, const Cfg& c) {
@@ -412,6 +415,7 @@ static void wl_proj(const Cfg& c) {
   shared_ptr<BackProjectorByBin> bp(new BackProjectorByBinUsingProjMatrixByBin(pm));
   fp->set_up(pdi, image);
   bp->set_up(pdi, image);
+  if (c.raise_to > 0) stir::set_num_threads(c.raise_to);     // the caller asks for more threads after set_up
   shared_ptr<ProjData> fwd = make_projdata(c, ex, pdi, c.file_io);
   shared_ptr<ProjData> data = make_projdata(c, ex, pdi, c.file_io);
   fill_projdata(*data, rng, 0, 6, 0.5F);
@@ -585,7 +589,13 @@ static void wl_scat(const Cfg& c) {
 }
 
 static int objs_of(const std::string& wl) { return wl == "lazy" ? 1 : 0; }
-static int mats_of(const std::string& wl) { return (wl == "rows" || wl == "proj" || wl == "ll" || wl == "lm") ? 1 : 0; }
+// number of cached matrix objects the calls can reach: the objective functions clone the back projector (and
+// with it the matrix) for the sensitivity when the data are TOF
+static int mats_of(const Cfg& c) {
+  if (c.wl == "rows" || c.wl == "proj") return 1;
+  if (c.wl == "ll" || c.wl == "lm") return c.maxT > 0 ? 2 : 1;
+  return 0;
+}
 static void run_workload(const Cfg& c) {
   if (c.wl == "lazy") wl_lazy(c);
   else if (c.wl == "rows") wl_rows(c);
@@ -609,7 +619,8 @@ static Cfg make_cfg(const std::string& wl, long inst, uint64_t seed, int size, c
   c.span = (c.R >= 3 && rng.range(0, 2) == 0) ? 3 : 1;
   c.maxDelta = c.span == 3 ? 1 : c.R - 1;
   c.mash = ((c.N / 2) % 2 == 0 && rng.range(0, 3) == 0) ? 2 : 1;
-  c.maxT = tof ? 5 : 0; c.tofMash = tof ? (rng.coin() ? 1 : 2) : 0;
+  const bool tof3 = rng.coin();
+  c.maxT = tof ? (tof3 ? 9 : 5) : 0; c.tofMash = tof ? (tof3 ? 3 : 1) : 0;     // 3 or 5 TOF bins
   c.numTang = std::max(3, c.N / 2 - 1) | 1;
   c.nxy = 2 * (c.N / 4) + 3; c.nz = 2 * c.R - 1;
   c.ntl = rng.range(1, 2);
@@ -620,8 +631,9 @@ static Cfg make_cfg(const std::string& wl, long inst, uint64_t seed, int size, c
   c.use_cache = true;
   const int nviews = c.N / 2 / c.mash;
   c.subsets = (nviews % 4 == 0 && rng.coin()) ? 2 : 1;
-  if (wl == "lazy") { c.geom = rng.range(0, 2) == 0 ? "BlocksOnCylindrical" : "Cylindrical"; c.span = 1; c.maxDelta = c.R - 1; c.mash = 1; c.maxT = 0; c.tofMash = 0; c.numTang = c.N - 1;
-    if (c.geom != "Cylindrical") c.N = rng.coin() ? 16 : 24; }
+  if (wl == "lazy") { c.geom = rng.range(0, 2) == 0 ? "BlocksOnCylindrical" : "Cylindrical"; c.span = 1; c.maxDelta = c.R - 1; c.mash = 1; c.maxT = 0; c.tofMash = 0;
+    if (c.geom != "Cylindrical") c.N = rng.coin() ? 16 : 24;
+    c.numTang = c.N - 1; }
   if (wl == "scat") { c.N = rng.coin() ? 16 : 24; c.R = 2; c.numTang = 7; c.use_cache = rng.range(0, 3) != 0; c.maxT = 0; c.tofMash = 0; }
   if (wl == "lm") { c.mash = 1; c.span = 1; c.maxDelta = c.R - 1; c.file_io = false; c.subsets = ((c.N / 2) % 4 == 0 && rng.coin()) ? 2 : 1; if (c.N > 12 || c.R > 2) c.basic_only = true; }
   return c;
@@ -632,7 +644,8 @@ static void one_run(const Cfg& c, long inst, int T, int rep, int mode, uint64_t 
   g_is_ref = is_ref;
   {
     vh::Json j("Run");
-    j.str("wl", c.wl).num("inst", inst).num("T", T).num("rep", rep).num("mode", mode).boolean("ref", is_ref).num("objs", objs_of(c.wl)).num("mats", mats_of(c.wl));
+    j.str("wl", c.wl).num("inst", inst).num("T", T).num("rep", rep).num("mode", mode).boolean("ref", is_ref).num("objs", objs_of(c.wl)).num("mats", mats_of(c))
+        .boolean("raised", c.raise_to > 0).num("raiseTo", c.raise_to);
     g_text = j.done() + "\n"; ++g_lines; g_outs.clear();
     flush_text();                            // visible even if the run crashes
   }
@@ -641,6 +654,8 @@ static void one_run(const Cfg& c, long inst, int T, int rep, int mode, uint64_t 
   begin_recording(seed * 1315423911ULL + (uint64_t)inst * 2654435761ULL + (uint64_t)T * 97 + (uint64_t)rep, mode);
   const bool err = vh::threw([&] { run_workload(c); }, &msg);
   end_recording();
+  for (const std::string& f : g_files) { unlink((f + ".hs").c_str()); unlink((f + ".s").c_str()); }
+  g_files.clear();
   g_text += g_outs; g_outs.clear();
   vh::Json e("EndRun");
   e.boolean("err", err).num("maxthreads", omp_get_max_threads());
@@ -664,6 +679,12 @@ static int child_main(const Cfg& c, long inst, uint64_t seed, int reps, int size
       const int mode = (r == 0) ? 2 : (int)(rng.next() % 5);
       one_run(c, inst, T, r, mode, seed, false);
     }
+  // last (a crash ends the child process): the number of threads is raised between set_up and the projections
+  if (c.wl == "proj") {
+    Cfg c2 = c;
+    c2.raise_to = rng.coin() ? 8 : 4;
+    one_run(c2, inst, 2, 99, 1, seed, false);
+  }
   fclose(g_out);
   return 0;
 }
@@ -688,7 +709,7 @@ int main(int argc, char** argv) {
     for (char ch : s + ",") { if (ch == ',') { if (!cur.empty()) wls.push_back(cur); cur.clear(); } else cur += ch; }
   }
   const uint64_t seed = (uint64_t)vh::seed_from_env();
-  const long limit = getenv("VERIF_C18_LIMIT") ? atol(getenv("VERIF_C18_LIMIT")) : 600;
+  const long limit = getenv("VERIF_C18_LIMIT") ? atol(getenv("VERIF_C18_LIMIT")) : 300;
   mkdir(scratch.c_str(), 0777);
   { FILE* f = fopen(path.c_str(), "w"); if (!f) return 3; fclose(f); }
   long id = 0;
